@@ -30,12 +30,14 @@ func (n *node) RouteSendPID(from gen.PID, to gen.PID, options gen.MessageOptions
 	}
 
 	// local
+	lib.VerifPoint("send.load", to)
 	value, found := n.processes.Load(to)
 	if found == false {
 		return gen.ErrProcessUnknown
 	}
 	p := value.(*process)
 
+	lib.VerifPoint("send.alive", p)
 	if alive := p.isAlive(); alive == false {
 		return gen.ErrProcessTerminated
 	}
@@ -55,6 +57,7 @@ func (n *node) RouteSendPID(from gen.PID, to gen.PID, options gen.MessageOptions
 	qm.Target = to
 	qm.Message = message
 
+	lib.VerifPoint("send.push", p)
 	if ok := queue.Push(qm); ok == false {
 		if p.fallback.Enable == false {
 			return gen.ErrProcessMailboxFull
@@ -1524,6 +1527,7 @@ func (n *node) Creation() int64 {
 }
 
 func (n *node) sendExitMessage(from gen.PID, to gen.PID, message any) error {
+	lib.VerifPoint("exit.load", to)
 	value, loaded := n.processes.Load(to)
 	if loaded == false {
 		return gen.ErrProcessUnknown
@@ -1540,6 +1544,7 @@ func (n *node) sendExitMessage(from gen.PID, to gen.PID, message any) error {
 	qm.Type = gen.MailboxMessageTypeExit
 	qm.Message = message
 
+	lib.VerifPoint("exit.push", p)
 	if ok := p.mailbox.Urgent.Push(qm); ok == false {
 		return gen.ErrProcessMailboxFull
 	}
